@@ -16,8 +16,9 @@ Definition tr_gen := (list ch_frame * option err)%type.
 Inductive tr_reader :=
 | TrFrame (t : tr_table)                          (* DataFrameReader(df), RangeIndex *)
 | TrCsv (t : tr_table)                            (* CSVFileReader on a file holding t *)
-| TrParquet (t : tr_table) (bl : list nat)        (* ParquetFileReader; bl = lengths of the record
-                                                     batches pyarrow's iter_batches(c) delivers (oracle) *)
+| TrParquet (t : tr_table) (bl bl0 : list nat)    (* ParquetFileReader; oracle: lengths of the record batches
+                                                     pyarrow's iter_batches(c, columns) delivers: bl when at
+                                                     least one existing column is projected, bl0 when none is *)
 | TrMapped (r : tr_reader) (m : list (nat * nat)) (* ColumnMappedReader(r, {orig: new}) *)
 | TrJoined (rs : list tr_reader)                  (* JoinedTabularDataReader(rs) *)
 | TrComputed (r : tr_reader) (k : nat)            (* ComputedTabularDataReader(r, k, dtype, func) *)
@@ -165,7 +166,7 @@ Fixpoint tr_names (r : tr_reader) : list nat :=
   match r with
   | TrFrame t => tb_names t
   | TrCsv t => tb_names t
-  | TrParquet t _ => tb_names t
+  | TrParquet t _ _ => tb_names t
   | TrMapped r' m => map (tr_rename m) (tr_names r')
   | TrJoined rs => flat_map tr_names rs
   | TrComputed r' k _ => tr_names r' ++ [k]
@@ -183,7 +184,7 @@ Fixpoint tr_read (r : tr_reader) (cols : option (list nat)) : result ch_frame :=
     | Some [] => Ok (ch_whole [] [])
     | Some cs => ch_select EValue cs (ch_whole (tb_names t) (tb_rows t))
     end
-  | TrParquet t _ =>                  (* pq.read_table(columns=columns).to_pandas() *)
+  | TrParquet t _ _ =>                (* pq.read_table(columns=columns).to_pandas() *)
     let w := ch_whole (tb_names t) (tb_rows t) in
     match cols with None => Ok w | Some cs => ch_select EValue cs w end
   | TrMapped r' m =>
@@ -234,12 +235,14 @@ Fixpoint tr_stream (r : tr_reader) (c : nat) (cols : option (list nat)) : tr_gen
                      (tr_csv_frames c (tb_names t) (match cs with [] => [] | _ :: _ => tb_rows t end)), None)
            else ([], Some EValue)
          end
-  | TrParquet t bl =>
+  | TrParquet t bl bl0 =>
     if Nat.eqb c 0 then ([], Some EValue)
-    else let fs := tr_pq_frames c 0 (tb_names t) (ch_split_by bl (tb_rows t)) in
-         match cols with
-         | None => (fs, None)
-         | Some cs => (map (ch_sel (tr_dedup (filter (fun x => ch_mem x (tb_names t)) cs))) fs, None)
+    else match cols with
+         | None => (tr_pq_frames c 0 (tb_names t) (ch_split_by bl (tb_rows t)), None)
+         | Some cs =>
+           let cs' := tr_dedup (filter (fun x => ch_mem x (tb_names t)) cs) in
+           let batches := ch_split_by (match cs' with [] => bl0 | _ :: _ => bl end) (tb_rows t) in
+           (map (ch_sel cs') (tr_pq_frames c 0 (tb_names t) batches), None)
          end
   | TrMapped r' m =>
     match cols with
